@@ -80,6 +80,28 @@ Definition with_suffix (name e : str) : str :=
 (* the identity on components: the `eqkey` of the current code *)
 Definition same (x : str) : str := x.
 
+(* ---- sorted(children, key=lambda n: n._namespace_components): Python compares lists of str lexicographically, str by
+   code point, a proper prefix first.  Namespace.get_nested_namespaces (since fix 9b93945). ------------------------------ *)
+Fixpoint lex_leb {A} (leb eqb : A -> A -> bool) (a b : list A) : bool :=
+  match a, b with
+  | [], _ => true
+  | _ :: _, [] => false
+  | x :: a', y :: b' => if eqb x y then lex_leb leb eqb a' b' else leb x y
+  end.
+Definition str_leb (a b : str) : bool := lex_leb N.leb N.eqb a b.
+Definition key_leb (a b : key) : bool := lex_leb str_leb str_eqb a b.
+
+Fixpoint insert_key (k : key) (l : list key) : list key :=
+  match l with
+  | [] => [k]
+  | x :: r => if key_leb k x then k :: l else x :: insert_key k r
+  end.
+Fixpoint sort_keys (l : list key) : list key :=
+  match l with
+  | [] => []
+  | k :: r => insert_key k (sort_keys r)
+  end.
+
 (* ---- heap of Namespace objects ---------------------------------------------------------- *)
 Record node := mkNode {
   n_types : list (ty * path);      (* _data_type_to_outputs, insertion order *)
@@ -209,7 +231,9 @@ Section NS.
 
   Section Orders.
     Variable perm : list key -> list key.    (* iteration order of namespace_index *)
-    Variable cperm : list key -> list key.   (* iteration order of a _nested_namespaces set *)
+    Variable cperm : list key -> list key.   (* Namespace.get_nested_namespaces: order in which the children are visited.
+                                                Since fix 9b93945 the code is cperm = sort_keys (name order); before, the
+                                                raw set order (arbitrary).  The theorems hold for every permutation. *)
 
     Definition build_index (types : list ty) : store * list key :=
       fold_left step_type types ([], []).
